@@ -33,6 +33,10 @@ def run(ctx):
     sort_key(ctx, "R4", n)
     U.rule_qsl(ctx, "R5")
     default_protocol(ctx, "R6", n)
+    # the platform tests of normalize_url(platform_aware=True) see the raw (not yet lower-cased) string
+    import json as _json2
+    from .c18 import site_languages, SPEC as _SPEC
+    site_languages(ctx, "R7", "facebook", _json2.load(open(_SPEC))["facebook"])
 
 
 def default_protocol(ctx, rule, n):
@@ -168,6 +172,14 @@ def fingerprint_over_normalize(ctx, rule):
             return [x for x in P.subterms(t, data_only=True) if x[0] == "call" and x[1] == "builtins.sorted" and any(NM.is_lower(y) for y in P.subterms(x, data_only=True))]
         ctx.ob(rule, "fingerprint_url/query/sorted-after-lowercasing", bool(sorted_above(query)),
                "fingerprint_url lower-cases the query after normalize_url sorted it and does not sort again: '?%5A=1&b=2' (Z unescaped, then lowered) keeps another order than '?z=1&b=2'", site, witness="http://a.com/?%5A=1&b=2")
+        # the re-sort is the same total order on (key, value) items as normalize_url's sort
+        nq = NM.Norm(ctx).query
+        nkeys = set(dict(x[3]).get("key") for x in P.subterms(nq) if x[0] == "call" and x[1] == "builtins.sorted")
+        for sx in sorted_above(query):
+            k = dict(sx[3]).get("key")
+            ctx.ob(rule, "fingerprint_url/query/re-sort-uses-normalize-key", k is not None and k in nkeys,
+                   "fingerprint_url re-sorts the lower-cased items with key=%s while normalize_url sorts with key=%s: items that only tie under the weaker key keep their pre-lower-casing order ('?tag=%%42eta&tag=alpha' vs '?tag=Beta&tag=alpha')" % (P.show(k, maxdepth=2) if k else "none", ", ".join(sorted(P.show(x, maxdepth=2) for x in nkeys if x))),
+                   site, witness="http://a.com/?tag=%42eta&tag=alpha")
     # string form = urlunsplit of the same tuple, nothing more
     for r in rets:
         if r.kind != "return" or r.term == t:
